@@ -187,6 +187,25 @@ def run_core(prop, tier, seed, t0, cfgname='TraceCore.cfg'):
             p = os.path.join(lib.BUILD, 'replay'); os.makedirs(p, exist_ok=True)
             path = os.path.join(p, 'C03-inductive-invariant.txt'); open(path, 'w').write(apalache['output'])
             out_lines.append('VIOLATION property=C03 replay=%s' % path); nviol += 1
+    # ---- C17: a tracer installed by one thread serves the calls of every thread (concurrent driver, TSan build)
+    xthread_cov = {}
+    if prop == 'C17':
+        csegs = [(sid, ls) for sid, ls in gen_scripts.gen_conc_segments(240 if tier == 'quick' else 6000, seed, prefix='ctr') if 'pre tracer 1 1' in ls]
+        cres = conc_validate(csegs, os.path.join(work, 'conc'), seed) if (os.makedirs(os.path.join(work, 'conc'), exist_ok=True) or True) else []
+        cerr = [r['error'] for r in cres if 'error' in r]
+        if cerr:
+            print('CHECK-ERROR property=C17 concurrent tracer runs: %s' % cerr[0][:1500]); return 2
+        cby = dict(csegs)
+        seen = set()
+        for r in cres:
+            for v in r['viol']:
+                if 'C17' in v.get('prop', '').split() and v['seg'] not in seen and len(seen) < 5:
+                    seen.add(v['seg'])
+                    hist = r.get('hist', {}).get(v['seg'], [])
+                    path = replay_file('C17', v['seg'], cby.get(v['seg'], []), [v], 'concurrent segment (tracer installed before the threads start); recorded linearization:\n#   ' + '\n#   '.join(hist))
+                    out_lines.append('VIOLATION property=C17 replay=%s' % path); nviol += 1
+        xthread_cov = dict(cross_thread_tracer=dict(programs=len(csegs), events=sum(r.get('events', 0) for r in cres),
+                                                   rule='concurrent programs whose prelude installs a tracer on the main thread; every accepted call of every worker thread must deliver one record to it (validated in the linearization replay)'))
     # ---- the repository's own tests (self_test, thread_terror) with hooks, validated against Generic.tla
     suite_cov = {}
     if prop in SUITE_PROPS:
@@ -213,6 +232,7 @@ def run_core(prop, tier, seed, t0, cfgname='TraceCore.cfg'):
                samples=samples, model_checking=mc.get('summary', {}), exhaustive=False,
                sanitizers='ASan+UBSan+LSan, TROMPELOEIL_SANITY_CHECKS', tree=lib.tree_hash())
     cov.update(suite_cov)
+    cov.update(xthread_cov)
     if apalache:
         cov['inductive_invariant'] = {k: v for k, v in apalache.items() if k != 'output'}
     if exhaustive_note:
@@ -752,10 +772,17 @@ def run_conc(prop, tier, seed, t0):
     work = os.path.join(lib.BUILD, 'work-%s-%d' % (prop, os.getpid()))
     shutil.rmtree(work, ignore_errors=True); os.makedirs(work)
     rp = os.path.join(lib.BUILD, 'replay'); os.makedirs(rp, exist_ok=True)
-    d = lib.build_conc()
     nseg = 400 if tier == 'quick' else 60000
     segs = gen_scripts.gen_conc_segments(nseg, seed) + fixed_conc_segments()
     by_id = dict(segs)
+    res = conc_validate(segs, work, seed)
+    return run_conc_tail(prop, tier, seed, t0, work, rp, segs, by_id, res)
+
+def conc_validate(segs, work, seed):
+    """run concurrent segments on the TSan-built driver and validate the linearized traces; list of per-chunk results"""
+    import subprocess, normalize
+    import concurrent.futures as cf
+    d = lib.build_conc()
     nch = lib.NCPU // 2          # each driver process runs up to 3 busy threads
     chunks = [segs[i::nch] for i in range(nch)]
     env = dict(os.environ); env.update(TSAN_ENV)
@@ -788,7 +815,9 @@ def run_conc(prop, tier, seed, t0):
                     r['hist'].setdefault(cur, []).append('%s %s reps=%s q=%s acc=%s' % (e.get('e'), e.get('a'), [(x.get('kind'), x.get('ent')) for x in e.get('reps', [])], e.get('q'), e.get('acc')))
         return r
     with cf.ThreadPoolExecutor(nch) as ex:
-        res = list(ex.map(one, range(nch)))
+        return list(ex.map(one, range(nch)))
+
+def run_conc_tail(prop, tier, seed, t0, work, rp, segs, by_id, res):
     errs = [r['error'] for r in res if 'error' in r]
     if errs:
         print('CHECK-ERROR property=C12 %s' % errs[0][:2000]); return 2
